@@ -160,9 +160,9 @@ Definition exp_pre_arrayOperator : list string := ["var err error";
    "return nil, err"].
 
 Definition exp_sink_cases : list (string * string) :=
-  [("time.Time", "if dtf, ok := c.ctx.Value(""TIME_FORMAT"").(string); ok { bb.Write(unsafeGetBytes(t.Format(dtf))) return }; bb.Write(unsafeGetBytes(t.Format(DefaultTimeFormat)))");
+  [("time.Time", "if dtf, ok := c.ctx.Value(""TIME_FORMAT"").(string); ok { bb.Write(unsafeGetBytes(template.HTMLEscapeString(t.Format(dtf)))) return }; bb.Write(unsafeGetBytes(template.HTMLEscapeString(t.Format(DefaultTimeFormat))))");
    ("*time.Time", "if t != nil { c.write(bb, *t) }");
-   ("interfaceable", "c.write(bb, t.Interface())");
+   ("interfaceable", "if c.unwrapping < maxUnwrap { c.unwrapping++ c.write(bb, t.Interface()) c.unwrapping-- }");
    ("string,ast.Printable,bool", "bb.Write(unsafeGetBytes(template.HTMLEscaper(t)))");
    ("template.HTML", "bb.Write(unsafeGetBytes(string(t)))");
    ("HTMLer", "bb.Write(unsafeGetBytes(string(t.HTML())))");
@@ -294,7 +294,9 @@ Definition exp_body_NewTemplate : list string := ["t := &Template{ Input: input,
    "if err != nil { return t, err }";
    "return t, nil"].
 
-Definition exp_body_Template_Parse : list string := ["if t.program != nil { return nil }";
+Definition exp_body_Template_Parse : list string := ["t.parseMoot.Lock()";
+   "defer t.parseMoot.Unlock()";
+   "if t.program != nil { return nil }";
    "program, err := parser.Parse(t.Input)";
    "if err != nil { return err }";
    "t.program = program";
@@ -306,5 +308,7 @@ Definition exp_body_Template_Exec : list string := ["err := t.Parse()";
    "s, err := ev.compile()";
    "return s, err"].
 
-Definition exp_body_Template_Clone : list string := ["t2 := &Template{ Input: t.Input, program: t.program, }";
+Definition exp_body_Template_Clone : list string := ["t.parseMoot.Lock()";
+   "defer t.parseMoot.Unlock()";
+   "t2 := &Template{ Input: t.Input, program: t.program, }";
    "return t2"].
